@@ -35,6 +35,7 @@ from ngo.utils.ast import (
     body_predicates,
     collect_ast,
     collect_bound_variables,
+    global_vars_inside_body,
     headderivable_predicates,
     literal_predicate,
     minimize_predicates,
@@ -645,6 +646,14 @@ class DomainPredicates:
             assert atom.ast_type == ASTType.SymbolicAtom
             return Predicate(atom.symbol.name, len(atom.symbol.arguments))
 
+        def clash(elem: AST, body: list[AST]) -> bool:
+            """a variable of the head element would meet an equally named local variable of a body aggregate or
+            conditional literal once element condition and body are joined in one domain rule"""
+            names = {var.name for var in collect_ast(elem, "Variable")}
+            outer = {var.name for var in global_vars_inside_body(body)}
+            inner = {var.name for blit in body for var in collect_ast(blit, "Variable")} - outer
+            return bool((names - outer - {"_"}) & inner)
+
         ### collect conditions for the head
         for rule in filter(
             lambda rule: rule.ast_type == ASTType.Rule, chain.from_iterable([x.unpool(condition=True) for x in prg])
@@ -662,6 +671,9 @@ class DomainPredicates:
                     assert elem.ast_type == ASTType.ConditionalLiteral
                     condition = elem.condition
                     if elem.literal.sign == Sign.NoSign and elem.literal.atom.ast_type == ASTType.SymbolicAtom:
+                        if clash(elem, body):
+                            self._too_complex.add(atom2pred(elem.literal.atom))
+                            continue
                         domain_rules[atom2pred(elem.literal.atom)].append(
                             (elem.literal.atom, list(chain(condition, body)))
                         )
@@ -671,6 +683,9 @@ class DomainPredicates:
                     and elem.condition.literal.atom.ast_type == ASTType.SymbolicAtom,
                     head.elements,
                 ):
+                    if clash(elem, body):
+                        self._too_complex.add(atom2pred(elem.condition.literal.atom))
+                        continue
                     domain_rules[atom2pred(elem.condition.literal.atom)].append(
                         (elem.condition.literal.atom, list(chain(elem.condition.condition, body)))
                     )
@@ -680,6 +695,9 @@ class DomainPredicates:
                     and elem.literal.atom.ast_type == ASTType.SymbolicAtom,
                     head.elements,
                 ):
+                    if clash(elem, body):
+                        self._too_complex.add(atom2pred(elem.literal.atom))
+                        continue
                     domain_rules[atom2pred(elem.literal.atom)].append(
                         (elem.literal.atom, list(chain(elem.condition, body)))
                     )
